@@ -2,10 +2,14 @@
    splitter, average the fold scores, rank the averages the way pandas does, take the first
    arg-min of the ranks, optionally refit the winner on the whole series and delegate to it.
 
-   Abstract: series, metric, and the base forecaster family (`respond p`, `cutoff_after p` = the
-   forecaster obtained from clone(forecaster) with parameters p set, as a function of the calls it
-   receives).  Concrete: pandas' Series.rank(method="average") + Series.argmin(), and Python's
-   truthiness of the `ascending=` argument. *)
+   Abstract: series, metric, the forecaster objects `F` (`respond f`, `cutoff_after f` = a forecaster
+   instance with constructor parameters f and NO fitted state, as a function of the calls it
+   receives), the candidates `PA` = PARTIAL parameter assignments (the dicts of ParameterGrid /
+   ParameterSampler; they may name different parameters and leave others alone), and
+   `apply_params f p` = clone(f).set_params( **p ).  Every candidate is applied to a fresh clone of the
+   SAME base forecaster: parameters a candidate does not name keep the base forecaster's values, never
+   those of another candidate.  Concrete: pandas' Series.rank(method="average") + Series.argmin(), and
+   Python's truthiness of the `ascending=` argument. *)
 From Coq Require Import ZArith QArith List Bool.
 Require Import SkV.Lib.Base SkV.Lib.ZRange SkV.C01.Model SkV.C07.Model.
 Import ListNotations.
@@ -64,17 +68,36 @@ Section Tune.
   Variable metric : list Q -> list Q -> Q.
   Variable greater_is_better : bool.                      (* scoring.greater_is_better *)
   Variable ascending_expr : pyval -> pyval.               (* the expression passed as ascending= *)
-  Variable P : Type.                                      (* a candidate parameter setting *)
-  Variable respond : P -> list (call XV) -> ydata.
-  Variable cutoff_after : P -> list (call XV) -> Z.
+  Variable F : Type.                                      (* a forecaster object: its parameters *)
+  Variable P : Type.                                      (* a candidate: PARTIAL parameter dict *)
+  Variable apply_params : F -> P -> F.                    (* clone(f).set_params( **p ) *)
+  Variable respond : F -> list (call XV) -> ydata.
+  Variable cutoff_after : F -> list (call XV) -> Z.
+  Variable base : F.                                      (* self.forecaster *)
 
-  (* _fit_and_score: an evaluate() run of the candidate, then the mean of the score column *)
-  Definition cand_eval (sp : splitter) (st : strategy) (p : P) : res (list row * list (call XV)) :=
-    evaluate XV tm yv xv (respond p) (cutoff_after p) metric sp st.
-  Definition cand_mean (sp : splitter) (st : strategy) (p : P) : res Q :=
-    match cand_eval sp st p with
+  (* an independent evaluate() run of forecaster object f, then the mean of the score column *)
+  Definition fc_eval (sp : splitter) (st : strategy) (f : F) : res (list row * list (call XV)) :=
+    evaluate XV tm yv xv (respond f) (cutoff_after f) metric sp st.
+  Definition fc_mean (sp : splitter) (st : strategy) (f : F) : res Q :=
+    match fc_eval sp st f with
     | Ok (rows, _) => Ok (qmean (map r_score rows))
     | Err => Err
+    end.
+  (* _fit_and_score(params): forecaster = clone(self.forecaster); forecaster.set_params( **params ) *)
+  Definition cand_eval (sp : splitter) (st : strategy) (p : P) : res (list row * list (call XV)) :=
+    fc_eval sp st (apply_params base p).
+  Definition cand_mean (sp : splitter) (st : strategy) (p : P) : res Q :=
+    fc_mean sp st (apply_params base p).
+
+  (* NOT the search: the loop with ONE forecaster instance shared by all candidates (set_params on
+     the object the previous candidate left behind).  Only here so that this regression has a
+     meaning in the model: Proofs.v shows when it coincides with the search, Refuted.v that it breaks
+     candidate isolation as soon as candidates name different parameters. *)
+  Fixpoint shared_means (sp : splitter) (st : strategy) (inst : F) (cands : list P)
+    : list (res Q) :=
+    match cands with
+    | [] => []
+    | p :: t => let inst' := apply_params inst p in fc_mean sp st inst' :: shared_means sp st inst' t
     end.
 
   Record search := mksearch {
@@ -126,23 +149,26 @@ Section Tune.
   Definition op_call (o : op) : list (call XV) :=
     match o with OpPredict f x => [Predict f x] | OpUpdate y x => [Update y x] | OpCutoff => [] end.
 
-  (* what a forecaster with parameters p that has received `h` answers to operation o *)
-  Definition direct_answer (p : P) (h : list (call XV)) (o : op) : answer :=
+  (* what the forecaster object p that has received `h` answers to operation o *)
+  Definition direct_answer (p : F) (h : list (call XV)) (o : op) : answer :=
     match o with
     | OpPredict _ _ => ASeries (respond p (h ++ op_call o))
     | OpUpdate _ _ => ADone
     | OpCutoff => ACutoff (cutoff_after p h)
     end.
-  Fixpoint direct_run (p : P) (h : list (call XV)) (script : list op) : list answer :=
+  Fixpoint direct_run (p : F) (h : list (call XV)) (script : list op) : list answer :=
     match script with
     | [] => []
     | o :: t => direct_answer p h o :: direct_run p (h ++ op_call o) t
     end.
 
+  (* best_forecaster_ = clone(self.forecaster).set_params( **best_params_ ): a fresh clone again *)
+  Definition best_forecaster (s : search) : F := apply_params base (s_best s).
+
   (* predict / update / cutoff of the tuner: check_is_fitted(method) then delegate *)
   Definition tuner_step (t : tuner) (o : op) : answer * tuner :=
     if tn_refit t
-    then (direct_answer (s_best (tn_search t)) (tn_calls t) o,
+    then (direct_answer (best_forecaster (tn_search t)) (tn_calls t) o,
           mktuner (tn_search t) (tn_refit t) (tn_calls t ++ op_call o))
     else (ANotFitted, t).
   Fixpoint tuner_run (t : tuner) (script : list op) : list answer :=
